@@ -346,7 +346,7 @@ def selftest():
 
 
 core.register("C13", [
-    Facet("export", export_cases, check_export, n_quick=400, shards_quick=8,
+    Facet("export", export_cases, check_export, n_quick=640, shards_quick=8,
           rule=RULE),
     Facet("roundtrip", export_cases, check_roundtrip, n_quick=300,
           shards_quick=4, rule="from_tk(to_tk(c)) is well-typed and has "
